@@ -12,7 +12,7 @@ Not decided: exactness of the alias table for concrete rate vectors (floats), ze
 import ast
 from typing import Dict, List, Optional, Tuple
 
-from ..core import AnalysisError, Loc, Report, Source, norm
+from ..core import IdiomNotRecognised, AnalysisError, Loc, Report, Source, norm
 from ..pyfront import Program, body_without_docstring, const_value, param_names, self_attr
 from ..guards import atoms
 from ..normalize import canon, flat
@@ -311,257 +311,266 @@ def analyse(src: Source) -> List[Report]:
         ok = True
     rep.ob("R18.3-sample-shape", ok, locs, "row = choice(table); coin", "sampling idiom not recognised")
     # ---- R18.4 cell-veto handler -----------------------------------------------------------------------------------------
-    cv = prog.class_named("CellVetoEventHandler")
-    if "send_event_time" not in cv.methods or "initialize" not in cv.methods:
-        raise AnalysisError("CellVetoEventHandler.send_event_time / initialize not found")
-    st = canon(prog, cv, cv.methods["send_event_time"])
-    ini = canon(prog, cv, cv.methods["initialize"])
-    locv = Loc(CV, st.lineno, "CellVetoEventHandler.send_event_time")
-    RI, RT = Resolver(ini), Resolver(st)
-    # initialize: the bound table stores (upper, -lower) per far cell and direction; each walker table is built per direction from
-    # one component of it, clipped at zero
-    def bounds_table_of(recv: ast.AST) -> Optional[str]:
-        """the self attribute whose entry `recv` is: self.T[k] directly, or a local list that is stored as self.T[k] = local"""
-        if isinstance(recv, ast.Subscript) and self_attr(recv.value):
-            return self_attr(recv.value)
-        if isinstance(recv, ast.Name):
-            for a_ in ast.walk(ini):
-                if isinstance(a_, ast.Assign) and isinstance(a_.value, ast.Name) and a_.value.id == recv.id \
-                        and isinstance(a_.targets[0], ast.Subscript) and self_attr(a_.targets[0].value):
-                    return self_attr(a_.targets[0].value)
-        return None
-    tup = [n for n in ast.walk(ini) if isinstance(n, ast.Call) and isinstance(n.func, ast.Attribute) and n.func.attr == "append"
-           and bounds_table_of(n.func.value) and n.args and isinstance(n.args[0], ast.Tuple)]
-    bounds_attr = bounds_table_of(tup[0].func.value) if len(tup) == 1 else None
-    okc = False
-    if len(tup) == 1 and len(tup[0].args[0].elts) == 2:
-        e0, e1 = tup[0].args[0].elts
-        unpack = [a for a in ast.walk(ini) if isinstance(a, ast.Assign) and isinstance(a.targets[0], ast.Tuple) and len(a.targets[0].elts) == 2
-                  and isinstance(a.value, ast.Call) and norm(a.value.func).endswith("derivative_bound")]
-        if len(unpack) == 1:
-            up, lo = (norm(x) for x in unpack[0].targets[0].elts)
-            okc = norm(e0) == up and isinstance(e1, ast.UnaryOp) and isinstance(e1.op, ast.USub) and norm(e1.operand) == lo
-    rep.ob("R18.4-bound-components", okc, Loc(CV, tup[0].lineno if tup else ini.lineno, "CellVetoEventHandler.initialize"), tup[0] if tup else "bounds tuple",
-           "component 0 is the upper bound, component 1 the negated lower bound (in the order the estimator returns them)")
-    comp_of_list: Dict[str, int] = {}
-    for c in ast.walk(ini):
-        if not (isinstance(c, ast.Call) and isinstance(c.func, ast.Attribute) and c.func.attr == "append" and isinstance(c.func.value, ast.Subscript)
-                and isinstance(c.func.value.value, ast.Name) and c.args and isinstance(c.args[0], ast.Call) and norm(c.args[0].func) == "WalkerItem"):
-            continue
-        lst, d = c.func.value.value.id, norm(c.func.value.slice)
-        ok = False
-        comp = None
-        wa = c.args[0].args
-        if len(wa) == 2:
-            rate = RI.res(wa[1], (d,))
-            if isinstance(rate, ast.Call) and norm(rate.func) == "max" and len(rate.args) == 2:
-                zero = [x for x in rate.args if isinstance(x, ast.Constant) and x.value == 0]
-                src_ = [x for x in rate.args if not (isinstance(x, ast.Constant))]
-                if len(zero) == 1 and len(src_) == 1:
-                    e = src_[0]
-                    comp_ = const_value(prog, cv, e.slice) if isinstance(e, ast.Subscript) else None
-                    if isinstance(e, ast.Subscript) and isinstance(comp_, int) and isinstance(e.value, ast.Subscript) \
-                            and isinstance(e.value.value, ast.Subscript) and self_attr(e.value.value.value) == bounds_attr:
-                        comp = comp_
-                        ok = norm(e.value.slice) == d and comp in (0, 1)
-        if not ok and len(wa) == 2 and len(tup) == 1 and len(tup[0].args[0].elts) == 2:
-            # the item rate is the very expression stored as a component of the bound tuple in the same loop body (bounds and
-            # walker items built in one pass)
-            rate = wa[1]
-            same_loop = any(isinstance(lp_, ast.For) and any(x is c for x in ast.walk(lp_)) and any(x is tup[0] for x in ast.walk(lp_))
-                            and d in {x.id for x in ast.walk(lp_.target) if isinstance(x, ast.Name)} for lp_ in ast.walk(ini))
-            if same_loop and isinstance(rate, ast.Call) and norm(rate.func) == "max" and len(rate.args) == 2:
-                zero = [x for x in rate.args if isinstance(x, ast.Constant) and x.value == 0]
-                src_ = [x for x in rate.args if not isinstance(x, ast.Constant)]
-                if len(zero) == 1 and len(src_) == 1:
-                    for k_, comp_e in enumerate(tup[0].args[0].elts):
-                        if norm(comp_e) == norm(src_[0]):
-                            comp, ok = k_, True
-        if ok:
-            comp_of_list[lst] = comp
-        rep.ob("R18.4-walker-items", ok, Loc(CV, c.lineno, "CellVetoEventHandler.initialize"), c,
-               "the walker of a direction must get, per far cell, max(one bound component, 0) of that cell and the same direction")
-    comp_of_attr: Dict[str, int] = {}
-    for a in ast.walk(ini):
-        if isinstance(a, ast.Assign) and self_attr(a.targets[0]) and isinstance(a.value, ast.ListComp) and isinstance(a.value.elt, ast.Call) \
-                and norm(a.value.elt.func) == "Walker" and len(a.value.generators) == 1 and len(a.value.elt.args) == 1:
-            g_ = a.value.generators[0]
-            arg_ = a.value.elt.args[0]
-            # [Walker(items) for items in LISTS]   or   [Walker(LISTS[d]) for d in range(dimension)]
-            if isinstance(g_.iter, ast.Name) and g_.iter.id in comp_of_list and norm(arg_) == norm(g_.target):
-                comp_of_attr[self_attr(a.targets[0])] = comp_of_list[g_.iter.id]
-            elif isinstance(arg_, ast.Subscript) and isinstance(arg_.value, ast.Name) and arg_.value.id in comp_of_list \
-                    and norm(arg_.slice) == norm(g_.target) and norm(g_.iter) == "range(setting.dimension)":
-                comp_of_attr[self_attr(a.targets[0])] = comp_of_list[arg_.value.id]
-    rep.ob("R18.4-walker-per-direction", sorted(comp_of_attr.values()) == [0, 1], Loc(CV, ini.lineno, "CellVetoEventHandler.initialize"),
-           f"walker tables per direction built from bound components {comp_of_attr}", "one walker per direction for the upper (component 0) and lower (component 1) bounds")
-    # send_event_time under the two signs of the charge factor: abstract run of the canonical method (helpers inlined) with the
-    # charge factor positive / not positive.  Tracked values: the charge factor (as is / negated), small integer constants, the walker
-    # tables and what is taken out of them; everything else is an opaque symbol.  No variable is named by the rule.
-    def sign_run(positive: bool):
-        env: Dict[str, object] = {}
-
-        def ev(e: ast.AST):
-            if isinstance(e, ast.Constant) and isinstance(e.value, (int, float)) and not isinstance(e.value, bool):
-                return ("const", e.value)
-            if isinstance(e, ast.Name):
-                return env.get(e.id, ("sym", e.id))
-            if self_attr(e) in comp_of_attr:
-                return ("table", self_attr(e))
-            if isinstance(e, ast.Attribute):
-                cvv = const_value(prog, cv, e)
-                if isinstance(cvv, int) and not isinstance(cvv, bool):
-                    return ("const", cvv)
-            if isinstance(e, ast.Call) and norm(e.func).endswith("charge_correction_factor"):
-                return ("charge", False)
-            if isinstance(e, (ast.Tuple, ast.List)):
-                return ("tuple", tuple(ev(x) for x in e.elts))
-            if isinstance(e, ast.IfExp):
-                t = truth(e.test)
-                if t is None:
-                    raise ValueError(norm(e))
-                return ev(e.body if t else e.orelse)
-            if isinstance(e, ast.UnaryOp) and isinstance(e.op, ast.USub):
-                v = ev(e.operand)
-                if v[0] == "charge":
-                    return ("charge", not v[1])
-                if v[0] == "const":
-                    return ("const", -v[1])
-            if isinstance(e, ast.Call) and norm(e.func) == "abs" and len(e.args) == 1:
-                v = ev(e.args[0])
-                if v[0] == "charge":
-                    # |c|: the factor itself if it is positive now, else its negative
-                    now_positive = positive != v[1]
-                    return v if now_positive else ("charge", not v[1])
-            if isinstance(e, ast.BinOp) and isinstance(e.op, ast.Mult):
-                l, r = ev(e.left), ev(e.right)
-                for a, b in ((l, r), (r, l)):
-                    if a[0] == "charge" and b[0] == "const" and b[1] in (-1, -1.0, 1, 1.0):
-                        return ("charge", a[1] != (b[1] < 0))
-            if isinstance(e, ast.Subscript):
-                base = ev(e.value)
-                idx = ev(e.slice)
-                if base[0] == "tuple" and idx[0] == "const" and isinstance(idx[1], int) and 0 <= idx[1] < len(base[1]):
-                    return base[1][idx[1]]
-                if base[0] == "table":
-                    return ("walker", base[1], RT.text(e.slice))
-            return ("sym", RT.text(e))
-
-        def truth(t: ast.AST) -> Optional[bool]:
-            if isinstance(t, ast.UnaryOp) and isinstance(t.op, ast.Not):
-                v = truth(t.operand)
-                return None if v is None else not v
-            if isinstance(t, ast.Compare) and len(t.ops) == 1:
-                l, r, op = ev(t.left), ev(t.comparators[0]), t.ops[0]
-                if l[0] == "const" and r[0] == "const":
-                    return {ast.Eq: l[1] == r[1], ast.NotEq: l[1] != r[1], ast.Lt: l[1] < r[1], ast.LtE: l[1] <= r[1], ast.Gt: l[1] > r[1],
-                            ast.GtE: l[1] >= r[1]}.get(type(op))
-                for a, b, flip in ((l, r, False), (r, l, True)):
-                    if a[0] == "charge" and b[0] == "const" and b[1] == 0:
-                        # the case split is on the ORIGINAL factor: positive / not positive (zero included)
-                        o = type(op)
-                        if flip:
-                            o = {ast.Lt: ast.Gt, ast.Gt: ast.Lt, ast.LtE: ast.GtE, ast.GtE: ast.LtE}.get(o, o)
-                        if not a[1]:
-                            return {ast.Gt: positive, ast.LtE: not positive}.get(o)
-                        return {ast.Lt: positive, ast.GtE: not positive}.get(o)
+    def _r18_4() -> None:
+        cv = prog.class_named("CellVetoEventHandler")
+        if "send_event_time" not in cv.methods or "initialize" not in cv.methods:
+            raise AnalysisError("CellVetoEventHandler.send_event_time / initialize not found")
+        st = canon(prog, cv, cv.methods["send_event_time"])
+        ini = canon(prog, cv, cv.methods["initialize"])
+        locv = Loc(CV, st.lineno, "CellVetoEventHandler.send_event_time")
+        RI, RT = Resolver(ini), Resolver(st)
+        # initialize: the bound table stores (upper, -lower) per far cell and direction; each walker table is built per direction from
+        # one component of it, clipped at zero
+        def bounds_table_of(recv: ast.AST) -> Optional[str]:
+            """the self attribute whose entry `recv` is: self.T[k] directly, or a local list that is stored as self.T[k] = local"""
+            if isinstance(recv, ast.Subscript) and self_attr(recv.value):
+                return self_attr(recv.value)
+            if isinstance(recv, ast.Name):
+                for a_ in ast.walk(ini):
+                    if isinstance(a_, ast.Assign) and isinstance(a_.value, ast.Name) and a_.value.id == recv.id \
+                            and isinstance(a_.targets[0], ast.Subscript) and self_attr(a_.targets[0].value):
+                        return self_attr(a_.targets[0].value)
             return None
+        tup = [n for n in ast.walk(ini) if isinstance(n, ast.Call) and isinstance(n.func, ast.Attribute) and n.func.attr == "append"
+               and bounds_table_of(n.func.value) and n.args and isinstance(n.args[0], ast.Tuple)]
+        bounds_attr = bounds_table_of(tup[0].func.value) if len(tup) == 1 else None
+        if not tup:
+            # the bounds are not kept as one table of (upper, -lower) tuples (e.g. two tables, a record per bound kind): the rules on
+            # the components of that table and on the pairing of walker and component have nothing to attach to
+            raise IdiomNotRecognised("CellVetoEventHandler.initialize: no table of (upper, -lower) bound tuples is filled")
+        okc = False
+        if len(tup) == 1 and len(tup[0].args[0].elts) == 2:
+            e0, e1 = tup[0].args[0].elts
+            unpack = [a for a in ast.walk(ini) if isinstance(a, ast.Assign) and isinstance(a.targets[0], ast.Tuple) and len(a.targets[0].elts) == 2
+                      and isinstance(a.value, ast.Call) and norm(a.value.func).endswith("derivative_bound")]
+            if len(unpack) == 1:
+                up, lo = (norm(x) for x in unpack[0].targets[0].elts)
+                okc = norm(e0) == up and isinstance(e1, ast.UnaryOp) and isinstance(e1.op, ast.USub) and norm(e1.operand) == lo
+        rep.ob("R18.4-bound-components", okc, Loc(CV, tup[0].lineno if tup else ini.lineno, "CellVetoEventHandler.initialize"), tup[0] if tup else "bounds tuple",
+               "component 0 is the upper bound, component 1 the negated lower bound (in the order the estimator returns them)")
+        comp_of_list: Dict[str, int] = {}
+        for c in ast.walk(ini):
+            if not (isinstance(c, ast.Call) and isinstance(c.func, ast.Attribute) and c.func.attr == "append" and isinstance(c.func.value, ast.Subscript)
+                    and isinstance(c.func.value.value, ast.Name) and c.args and isinstance(c.args[0], ast.Call) and norm(c.args[0].func) == "WalkerItem"):
+                continue
+            lst, d = c.func.value.value.id, norm(c.func.value.slice)
+            ok = False
+            comp = None
+            wa = c.args[0].args
+            if len(wa) == 2:
+                rate = RI.res(wa[1], (d,))
+                if isinstance(rate, ast.Call) and norm(rate.func) == "max" and len(rate.args) == 2:
+                    zero = [x for x in rate.args if isinstance(x, ast.Constant) and x.value == 0]
+                    src_ = [x for x in rate.args if not (isinstance(x, ast.Constant))]
+                    if len(zero) == 1 and len(src_) == 1:
+                        e = src_[0]
+                        comp_ = const_value(prog, cv, e.slice) if isinstance(e, ast.Subscript) else None
+                        if isinstance(e, ast.Subscript) and isinstance(comp_, int) and isinstance(e.value, ast.Subscript) \
+                                and isinstance(e.value.value, ast.Subscript) and self_attr(e.value.value.value) == bounds_attr:
+                            comp = comp_
+                            ok = norm(e.value.slice) == d and comp in (0, 1)
+            if not ok and len(wa) == 2 and len(tup) == 1 and len(tup[0].args[0].elts) == 2:
+                # the item rate is the very expression stored as a component of the bound tuple in the same loop body (bounds and
+                # walker items built in one pass)
+                rate = wa[1]
+                same_loop = any(isinstance(lp_, ast.For) and any(x is c for x in ast.walk(lp_)) and any(x is tup[0] for x in ast.walk(lp_))
+                                and d in {x.id for x in ast.walk(lp_.target) if isinstance(x, ast.Name)} for lp_ in ast.walk(ini))
+                if same_loop and isinstance(rate, ast.Call) and norm(rate.func) == "max" and len(rate.args) == 2:
+                    zero = [x for x in rate.args if isinstance(x, ast.Constant) and x.value == 0]
+                    src_ = [x for x in rate.args if not isinstance(x, ast.Constant)]
+                    if len(zero) == 1 and len(src_) == 1:
+                        for k_, comp_e in enumerate(tup[0].args[0].elts):
+                            if norm(comp_e) == norm(src_[0]):
+                                comp, ok = k_, True
+            if ok:
+                comp_of_list[lst] = comp
+            rep.ob("R18.4-walker-items", ok, Loc(CV, c.lineno, "CellVetoEventHandler.initialize"), c,
+                   "the walker of a direction must get, per far cell, max(one bound component, 0) of that cell and the same direction")
+        comp_of_attr: Dict[str, int] = {}
+        for a in ast.walk(ini):
+            if isinstance(a, ast.Assign) and self_attr(a.targets[0]) and isinstance(a.value, ast.ListComp) and isinstance(a.value.elt, ast.Call) \
+                    and norm(a.value.elt.func) == "Walker" and len(a.value.generators) == 1 and len(a.value.elt.args) == 1:
+                g_ = a.value.generators[0]
+                arg_ = a.value.elt.args[0]
+                # [Walker(items) for items in LISTS]   or   [Walker(LISTS[d]) for d in range(dimension)]
+                if isinstance(g_.iter, ast.Name) and g_.iter.id in comp_of_list and norm(arg_) == norm(g_.target):
+                    comp_of_attr[self_attr(a.targets[0])] = comp_of_list[g_.iter.id]
+                elif isinstance(arg_, ast.Subscript) and isinstance(arg_.value, ast.Name) and arg_.value.id in comp_of_list \
+                        and norm(arg_.slice) == norm(g_.target) and norm(g_.iter) == "range(setting.dimension)":
+                    comp_of_attr[self_attr(a.targets[0])] = comp_of_list[arg_.value.id]
+        rep.ob("R18.4-walker-per-direction", sorted(comp_of_attr.values()) == [0, 1], Loc(CV, ini.lineno, "CellVetoEventHandler.initialize"),
+               f"walker tables per direction built from bound components {comp_of_attr}", "one walker per direction for the upper (component 0) and lower (component 1) bounds")
+        # send_event_time under the two signs of the charge factor: abstract run of the canonical method (helpers inlined) with the
+        # charge factor positive / not positive.  Tracked values: the charge factor (as is / negated), small integer constants, the walker
+        # tables and what is taken out of them; everything else is an opaque symbol.  No variable is named by the rule.
+        def sign_run(positive: bool):
+            env: Dict[str, object] = {}
 
-        def run(stmts) -> None:
-            for x in stmts:
-                if isinstance(x, ast.Assign) and len(x.targets) == 1 and isinstance(x.targets[0], ast.Name):
-                    env[x.targets[0].id] = ev(x.value)
-                elif isinstance(x, ast.Assign) and len(x.targets) == 1 and isinstance(x.targets[0], (ast.Tuple, ast.List)) \
-                        and all(isinstance(t_, ast.Name) for t_ in x.targets[0].elts):
-                    v = ev(x.value)
-                    for k_, t_ in enumerate(x.targets[0].elts):
-                        env[t_.id] = v[1][k_] if v[0] == "tuple" and len(v[1]) == len(x.targets[0].elts) else ("sym", f"{t_.id}'")
-                elif isinstance(x, ast.AugAssign) and isinstance(x.target, ast.Name):
-                    cur = env.get(x.target.id, ("sym", x.target.id))
-                    v = ev(x.value)
-                    if cur[0] == "charge" and isinstance(x.op, ast.Mult) and v[0] == "const" and v[1] in (-1, -1.0, 1, 1.0):
-                        env[x.target.id] = ("charge", cur[1] != (v[1] < 0))
-                    else:
-                        env[x.target.id] = ("sym", f"{x.target.id}'")
-                elif isinstance(x, ast.If):
-                    t = truth(x.test)
+            def ev(e: ast.AST):
+                if isinstance(e, ast.Constant) and isinstance(e.value, (int, float)) and not isinstance(e.value, bool):
+                    return ("const", e.value)
+                if isinstance(e, ast.Name):
+                    return env.get(e.id, ("sym", e.id))
+                if self_attr(e) in comp_of_attr:
+                    return ("table", self_attr(e))
+                if isinstance(e, ast.Attribute):
+                    cvv = const_value(prog, cv, e)
+                    if isinstance(cvv, int) and not isinstance(cvv, bool):
+                        return ("const", cvv)
+                if isinstance(e, ast.Call) and norm(e.func).endswith("charge_correction_factor"):
+                    return ("charge", False)
+                if isinstance(e, (ast.Tuple, ast.List)):
+                    return ("tuple", tuple(ev(x) for x in e.elts))
+                if isinstance(e, ast.IfExp):
+                    t = truth(e.test)
                     if t is None:
-                        touched = {n.id for y in x.body + x.orelse for n in ast.walk(y) if isinstance(n, ast.Name) and isinstance(n.ctx, ast.Store)}
-                        if any(env.get(n, ("sym",))[0] != "sym" for n in touched) or any(
-                                isinstance(y, (ast.Assign, ast.AugAssign)) and ev(y.value)[0] != "sym" for z in x.body + x.orelse for y in ast.walk(z)):
-                            raise ValueError(norm(x.test))
-                        continue
-                    run(x.body if t else x.orelse)
-                elif isinstance(x, (ast.For, ast.While)):
-                    for n in ast.walk(x):
-                        if isinstance(n, ast.Name) and isinstance(n.ctx, ast.Store):
-                            env[n.id] = ("sym", f"{n.id}'")
-        run(st.body)
-        return env
-    okb = False
-    walker_var = index_var = charge_var = dir_txt = None
-    why_sign = "the charge-sign cases could not be followed"
-    alias_of: Dict[str, str] = {}
+                        raise ValueError(norm(e))
+                    return ev(e.body if t else e.orelse)
+                if isinstance(e, ast.UnaryOp) and isinstance(e.op, ast.USub):
+                    v = ev(e.operand)
+                    if v[0] == "charge":
+                        return ("charge", not v[1])
+                    if v[0] == "const":
+                        return ("const", -v[1])
+                if isinstance(e, ast.Call) and norm(e.func) == "abs" and len(e.args) == 1:
+                    v = ev(e.args[0])
+                    if v[0] == "charge":
+                        # |c|: the factor itself if it is positive now, else its negative
+                        now_positive = positive != v[1]
+                        return v if now_positive else ("charge", not v[1])
+                if isinstance(e, ast.BinOp) and isinstance(e.op, ast.Mult):
+                    l, r = ev(e.left), ev(e.right)
+                    for a, b in ((l, r), (r, l)):
+                        if a[0] == "charge" and b[0] == "const" and b[1] in (-1, -1.0, 1, 1.0):
+                            return ("charge", a[1] != (b[1] < 0))
+                if isinstance(e, ast.Subscript):
+                    base = ev(e.value)
+                    idx = ev(e.slice)
+                    if base[0] == "tuple" and idx[0] == "const" and isinstance(idx[1], int) and 0 <= idx[1] < len(base[1]):
+                        return base[1][idx[1]]
+                    if base[0] == "table":
+                        return ("walker", base[1], RT.text(e.slice))
+                return ("sym", RT.text(e))
+
+            def truth(t: ast.AST) -> Optional[bool]:
+                if isinstance(t, ast.UnaryOp) and isinstance(t.op, ast.Not):
+                    v = truth(t.operand)
+                    return None if v is None else not v
+                if isinstance(t, ast.Compare) and len(t.ops) == 1:
+                    l, r, op = ev(t.left), ev(t.comparators[0]), t.ops[0]
+                    if l[0] == "const" and r[0] == "const":
+                        return {ast.Eq: l[1] == r[1], ast.NotEq: l[1] != r[1], ast.Lt: l[1] < r[1], ast.LtE: l[1] <= r[1], ast.Gt: l[1] > r[1],
+                                ast.GtE: l[1] >= r[1]}.get(type(op))
+                    for a, b, flip in ((l, r, False), (r, l, True)):
+                        if a[0] == "charge" and b[0] == "const" and b[1] == 0:
+                            # the case split is on the ORIGINAL factor: positive / not positive (zero included)
+                            o = type(op)
+                            if flip:
+                                o = {ast.Lt: ast.Gt, ast.Gt: ast.Lt, ast.LtE: ast.GtE, ast.GtE: ast.LtE}.get(o, o)
+                            if not a[1]:
+                                return {ast.Gt: positive, ast.LtE: not positive}.get(o)
+                            return {ast.Lt: positive, ast.GtE: not positive}.get(o)
+                return None
+
+            def run(stmts) -> None:
+                for x in stmts:
+                    if isinstance(x, ast.Assign) and len(x.targets) == 1 and isinstance(x.targets[0], ast.Name):
+                        env[x.targets[0].id] = ev(x.value)
+                    elif isinstance(x, ast.Assign) and len(x.targets) == 1 and isinstance(x.targets[0], (ast.Tuple, ast.List)) \
+                            and all(isinstance(t_, ast.Name) for t_ in x.targets[0].elts):
+                        v = ev(x.value)
+                        for k_, t_ in enumerate(x.targets[0].elts):
+                            env[t_.id] = v[1][k_] if v[0] == "tuple" and len(v[1]) == len(x.targets[0].elts) else ("sym", f"{t_.id}'")
+                    elif isinstance(x, ast.AugAssign) and isinstance(x.target, ast.Name):
+                        cur = env.get(x.target.id, ("sym", x.target.id))
+                        v = ev(x.value)
+                        if cur[0] == "charge" and isinstance(x.op, ast.Mult) and v[0] == "const" and v[1] in (-1, -1.0, 1, 1.0):
+                            env[x.target.id] = ("charge", cur[1] != (v[1] < 0))
+                        else:
+                            env[x.target.id] = ("sym", f"{x.target.id}'")
+                    elif isinstance(x, ast.If):
+                        t = truth(x.test)
+                        if t is None:
+                            touched = {n.id for y in x.body + x.orelse for n in ast.walk(y) if isinstance(n, ast.Name) and isinstance(n.ctx, ast.Store)}
+                            if any(env.get(n, ("sym",))[0] != "sym" for n in touched) or any(
+                                    isinstance(y, (ast.Assign, ast.AugAssign)) and ev(y.value)[0] != "sym" for z in x.body + x.orelse for y in ast.walk(z)):
+                                raise ValueError(norm(x.test))
+                            continue
+                        run(x.body if t else x.orelse)
+                    elif isinstance(x, (ast.For, ast.While)):
+                        for n in ast.walk(x):
+                            if isinstance(n, ast.Name) and isinstance(n.ctx, ast.Store):
+                                env[n.id] = ("sym", f"{n.id}'")
+            run(st.body)
+            return env
+        okb = False
+        walker_var = index_var = charge_var = dir_txt = None
+        why_sign = "the charge-sign cases could not be followed"
+        alias_of: Dict[str, str] = {}
+        try:
+            envp, envn = sign_run(True), sign_run(False)
+            names = sorted(set(envp) & set(envn))
+            cases = {n: (envp[n], envn[n]) for n in names}
+            sc_calls = [c for c in ast.walk(st) if isinstance(c, ast.Call) and isinstance(c.func, ast.Attribute) and c.func.attr == "sample_cell"
+                        and isinstance(c.func.value, ast.Name)]
+            wv = sc_calls[0].func.value.id if len(sc_calls) == 1 else None
+            if wv in cases and cases[wv][0][0] == "walker" and cases[wv][1][0] == "walker":
+                (_, ap, dp), (_, an, dn) = cases[wv]
+                walker_var, dir_txt = wv, dp
+                idx_names = [n for n in names if cases[n] == (("const", 0), ("const", 1))]
+                chg_names = [n for n in names if cases[n] == (("charge", False), ("charge", True))]
+                consistent = comp_of_attr.get(ap) == 0 and comp_of_attr.get(an) == 1 and dp == dn
+                if idx_names and chg_names:
+                    index_var, charge_var = idx_names[-1], chg_names[-1]
+                    for grp, rep_name in ((idx_names, index_var), (chg_names, charge_var), ([n for n in names if cases[n] == cases[wv]], walker_var)):
+                        for n in grp:
+                            alias_of[n] = rep_name
+                okb = consistent and bool(idx_names) and bool(chg_names)
+                why_sign = f"positive factor: walker of `{ap}`, index {[cases[n][0] for n in idx_names][:1]}; otherwise: walker of `{an}`, " \
+                           f"index {[cases[n][1] for n in idx_names][:1]}, factor negated: {bool(chg_names)}"
+        except ValueError as e_:
+            why_sign = f"not followed: {e_}"
+        rep.ob("R18.4-walker-and-index-together", okb, locv, why_sign,
+               "for a positive charge factor the upper-bound walker goes with bound component 0, otherwise the factor is negated and the "
+               "lower-bound walker goes with component 1: walker and confirmation bound must be chosen by the same case")
+
+        def canon_names(txt: str) -> str:
+            import re as _re
+            for a_, r_ in sorted(alias_of.items(), key=lambda kv: -len(kv[0])):
+                if a_ != r_:
+                    txt = _re.sub(r"(?<![\w@#])" + _re.escape(a_) + r"(?![\w@#])", r_, txt)
+            return txt
+        keep = tuple(sorted(set(alias_of) | {x for x in (walker_var, index_var, charge_var) if x}))
+        td = [n for n in ast.walk(st) if isinstance(n, ast.BinOp) and isinstance(n.op, ast.Div) and isinstance(RT.res(n.left), ast.Call)
+              and norm(RT.res(n.left).func) == "random.expovariate"]
+        okt = False
+        if len(td) == 1 and walker_var and charge_var and index_var:
+            fs = [canon_names(f) for f in RT.factors(td[0], keep)]
+            speed = [f for f in fs if f.startswith("1/") and ".velocity[" in f]
+            fs = [f[:-2] if f.endswith("()") and any(f == f"1/{walker_var}.{a_}()" for a_ in total_accessors) else f for f in fs]
+            okt = RT.text(td[0].left) == "random.expovariate(setting.beta)" and len(fs) == 4 and any(f"1/{walker_var}.{a_}" in fs for a_ in total_accessors) \
+                and f"1/{charge_var}" in fs and len(speed) == 1 and "random.expovariate(setting.beta)" in fs
+        rep.ob("R18.4-candidate-time", okt, locv, td[0] if td else "time displacement",
+               "the candidate time must be Exp(beta) / (total rate of the chosen walker x charge factor x speed)")
+        be = [a for a in ast.walk(st) if isinstance(a, ast.Assign) and self_attr(a.targets[0]) and "rate" in self_attr(a.targets[0])
+              and isinstance(a.value, ast.BinOp)]
+        okq = False
+        if len(be) == 1 and walker_var and charge_var and index_var:
+            sc = [a for a in ast.walk(st) if isinstance(a, ast.Assign) and isinstance(a.targets[0], ast.Name)
+                  and canon_names(RT.text(a.value, keep)) == f"{walker_var}.sample_cell()"]
+            if len(sc) == 1:
+                cellv = norm(sc[0].targets[0])
+                fs = [canon_names(f) for f in RT.factors(be[0].value, keep + (cellv,))]
+                dir_here = canon_names(dir_txt or "")
+                okq = sorted(fs) == sorted([charge_var, f"self.{bounds_attr}[{cellv}][{dir_txt}][{index_var}]"])
+
+        rep.ob("R18.4-bound-at-sampled-cell", okq, locv, be[0] if be else "bounding event rate",
+               "the confirmation bound must be the stored bound of the sampled cell, the direction of motion and the chosen component, "
+               "times the charge factor")
     try:
-        envp, envn = sign_run(True), sign_run(False)
-        names = sorted(set(envp) & set(envn))
-        cases = {n: (envp[n], envn[n]) for n in names}
-        sc_calls = [c for c in ast.walk(st) if isinstance(c, ast.Call) and isinstance(c.func, ast.Attribute) and c.func.attr == "sample_cell"
-                    and isinstance(c.func.value, ast.Name)]
-        wv = sc_calls[0].func.value.id if len(sc_calls) == 1 else None
-        if wv in cases and cases[wv][0][0] == "walker" and cases[wv][1][0] == "walker":
-            (_, ap, dp), (_, an, dn) = cases[wv]
-            walker_var, dir_txt = wv, dp
-            idx_names = [n for n in names if cases[n] == (("const", 0), ("const", 1))]
-            chg_names = [n for n in names if cases[n] == (("charge", False), ("charge", True))]
-            consistent = comp_of_attr.get(ap) == 0 and comp_of_attr.get(an) == 1 and dp == dn
-            if idx_names and chg_names:
-                index_var, charge_var = idx_names[-1], chg_names[-1]
-                for grp, rep_name in ((idx_names, index_var), (chg_names, charge_var), ([n for n in names if cases[n] == cases[wv]], walker_var)):
-                    for n in grp:
-                        alias_of[n] = rep_name
-            okb = consistent and bool(idx_names) and bool(chg_names)
-            why_sign = f"positive factor: walker of `{ap}`, index {[cases[n][0] for n in idx_names][:1]}; otherwise: walker of `{an}`, " \
-                       f"index {[cases[n][1] for n in idx_names][:1]}, factor negated: {bool(chg_names)}"
-    except ValueError as e_:
-        why_sign = f"not followed: {e_}"
-    rep.ob("R18.4-walker-and-index-together", okb, locv, why_sign,
-           "for a positive charge factor the upper-bound walker goes with bound component 0, otherwise the factor is negated and the "
-           "lower-bound walker goes with component 1: walker and confirmation bound must be chosen by the same case")
-
-    def canon_names(txt: str) -> str:
-        import re as _re
-        for a_, r_ in sorted(alias_of.items(), key=lambda kv: -len(kv[0])):
-            if a_ != r_:
-                txt = _re.sub(r"(?<![\w@#])" + _re.escape(a_) + r"(?![\w@#])", r_, txt)
-        return txt
-    keep = tuple(sorted(set(alias_of) | {x for x in (walker_var, index_var, charge_var) if x}))
-    td = [n for n in ast.walk(st) if isinstance(n, ast.BinOp) and isinstance(n.op, ast.Div) and isinstance(n.left, ast.Call)
-          and norm(n.left.func) == "random.expovariate"]
-    okt = False
-    if len(td) == 1 and walker_var and charge_var and index_var:
-        fs = [canon_names(f) for f in RT.factors(td[0], keep)]
-        speed = [f for f in fs if f.startswith("1/") and ".velocity[" in f]
-        fs = [f[:-2] if f.endswith("()") and any(f == f"1/{walker_var}.{a_}()" for a_ in total_accessors) else f for f in fs]
-        okt = norm(td[0].left) == "random.expovariate(setting.beta)" and len(fs) == 4 and any(f"1/{walker_var}.{a_}" in fs for a_ in total_accessors) \
-            and f"1/{charge_var}" in fs and len(speed) == 1 and "random.expovariate(setting.beta)" in fs
-    rep.ob("R18.4-candidate-time", okt, locv, td[0] if td else "time displacement",
-           "the candidate time must be Exp(beta) / (total rate of the chosen walker x charge factor x speed)")
-    be = [a for a in ast.walk(st) if isinstance(a, ast.Assign) and self_attr(a.targets[0]) and "rate" in self_attr(a.targets[0])
-          and isinstance(a.value, ast.BinOp)]
-    okq = False
-    if len(be) == 1 and walker_var and charge_var and index_var:
-        sc = [a for a in ast.walk(st) if isinstance(a, ast.Assign) and isinstance(a.targets[0], ast.Name)
-              and canon_names(RT.text(a.value, keep)) == f"{walker_var}.sample_cell()"]
-        if len(sc) == 1:
-            cellv = norm(sc[0].targets[0])
-            fs = [canon_names(f) for f in RT.factors(be[0].value, keep + (cellv,))]
-            dir_here = canon_names(dir_txt or "")
-            okq = sorted(fs) == sorted([charge_var, f"self.{bounds_attr}[{cellv}][{dir_txt}][{index_var}]"])
-
-    rep.ob("R18.4-bound-at-sampled-cell", okq, locv, be[0] if be else "bounding event rate",
-           "the confirmation bound must be the stored bound of the sampled cell, the direction of motion and the chosen component, "
-           "times the charge factor")
+        _r18_4()
+    except IdiomNotRecognised as e_:
+        rep.ob("R18.4-bound-components", None, Loc(CV, 0, "CellVetoEventHandler"), "cell-veto handler", f"idiom not recognised: {e_}")
     from ..cell_rules import check_active_cell_level
     check_active_cell_level(prog, rep, "R18.4-active-cell-at-cell-level")
     from ..config_graph import ConfigGraph
